@@ -234,6 +234,58 @@ pub fn check_exclusive(log: &[Event], session_mode: bool) -> Option<(String, Str
     None
 }
 
+/// The last backend connection that received a tagged message of `client` had work open at that point (transaction, COPY,
+/// unsynced batch) - and afterwards, without any further message of that client, it received pooler-generated traffic
+/// (ROLLBACK, RESET ..., Terminate), another client's message, or was closed.
+pub fn abandoned_open_work(log: &[Event], client: u32) -> Option<String> {
+    let mut last: Option<(usize, u64, u64)> = None; // (index, conn, seq)
+    let mut open = false;
+    for (i, e) in log.iter().enumerate() {
+        if let EvKind::Rx { tags, snap, code, .. } = &e.kind {
+            if tags.iter().any(|t| t.client == client) {
+                last = Some((i, e.conn, e.seq));
+                // state after the message is not in the snapshot; a statement that opens work is recognised by what follows:
+                // the next event on this connection still sees it open
+                open = snap.txn != b'I' || snap.copy != 0 || snap.batch_open || matches!(*code, b'P' | b'B' | b'E' | b'D');
+            }
+        }
+    }
+    let (idx, conn, seq) = last?;
+    for e in log.iter().skip(idx + 1) {
+        if e.conn != conn || e.server != log[idx].server {
+            continue;
+        }
+        match &e.kind {
+            EvKind::Rx { tags, snap, own, code, .. } => {
+                let still_open = snap.txn != b'I' || snap.copy != 0 || snap.batch_open;
+                if !(open || still_open) {
+                    return None;
+                }
+                if still_open && (*own || *code == b'X' || tags.iter().any(|t| t.client != client)) {
+                    return Some(format!(
+                        "after its message at seq {} backend conn {} (txn={} copy={} batch_open={}) received '{}' that is not the client's ({})",
+                        seq, conn, snap.txn as char, snap.copy, snap.batch_open, *code as char, if *own { "pooler-generated" } else { "another client's / untagged" }
+                    ));
+                }
+                return None;
+            }
+            EvKind::Ctl(st) if st.starts_with("state-at-close") => {
+                if !st.contains("txn=I copy=0 batch_open=false") {
+                    open = true;
+                }
+            }
+            EvKind::Close { .. } => {
+                if open {
+                    return Some(format!("after its message at seq {} backend conn {} was closed while the client's work was open and the client was still waiting", seq, conn));
+                }
+                return None;
+            }
+            _ => {}
+        }
+    }
+    None
+}
+
 async fn run_case(c: &Case, ctx: &mut WorkerCtx) -> Outcome {
     let mut o = Outcome::pass();
     let mut specs = vec![BackendSpec::trust("127.0.0.1", "p0")];
@@ -298,6 +350,15 @@ async fn run_case(c: &Case, ctx: &mut WorkerCtx) -> Outcome {
             intervals.push((r.id, x.t_send_us, x.t_done_us));
             o.sub_evaluations += 1;
             if !matches!(x.end, crate::cli::ReadEnd::Ready(_)) {
+                // the client is still waiting for an answer: if the pooler meanwhile closed, cleaned up or handed on the backend
+                // connection on which this client's transaction / COPY / batch is open, the rest of that transaction can no
+                // longer be executed there
+                if matches!(x.end, crate::cli::ReadEnd::Timeout) {
+                    if let Some(d) = abandoned_open_work(&log, r.id) {
+                        o.fail("connection-taken-away-during-open-work", format!("client c{} got no answer to {:?}: {}", r.id, x.tags, d));
+                        return o;
+                    }
+                }
                 o.inconclusive = Some(format!("c{} request {:?} ended {:?}; stderr: {}", r.id, x.tags, x.end, stderr_tail));
                 return o;
             }
